@@ -79,3 +79,8 @@ struct C02Tree {
         auto y = T::fromDom(t1); vp_assert(y.has_value(), "C02 " #T ": the serialization of a parsed object is accepted by the same parser"); \
         if (y) { VpWriter w2; y->toXml(w2.writer()); QDomElement t2 = w2.root(); \
           vp_assert(vp_dom_equal(&t1, &t2), "C02 " #T ": parse/serialize is a fix point (second pass gives the same document)"); } } }
+
+// first half only: P(t) -> x -> toXml must be well-formed (writer model assertions) and memory safe
+#define C02_SAFE_OPT(T, t, admitted) \
+    { auto x = T::fromDom(t); admitted = x.has_value(); \
+      if (x) { VpWriter w1; x->toXml(w1.writer()); QDomElement t1 = w1.root(); vp_assert(!t1.isNull(), "C02 " #T ": a parsed object serializes to one complete element"); } }
